@@ -26,6 +26,33 @@ structure RestF (s s' : St) : Prop where
   ifs : s'.ifs = s.ifs
   icnt : s'.ifCounter = s.ifCounter
 
+/-- `Adv` for structural lines (brackets, construct labels and jumps): the same bookkeeping, no claim about the lines -/
+structure AdvS (s s' : St) (new : List BLine) (n : Nat) : Prop where
+  code : s'.globalCode = new ++ s.globalCode
+  cnt : s'.varCounter = s.varCounter + n
+  funcs : s'.funcs = s.funcs
+  fcode : s'.functionsCode = s.functionsCode
+  fors : s'.fors = s.fors
+  ends : s'.endLabels = s.endLabels
+  ifs : s'.ifs = s.ifs
+  fcnt : s'.forCounter = s.forCounter
+  icnt : s'.ifCounter = s.ifCounter
+
+theorem Adv.toS {s s' : St} {new : List BLine} {n : Nat} (h : Adv s s' new n) : AdvS s s' new n :=
+  ⟨h.code, h.cnt, h.funcs, h.fcode, h.fors, h.ends, h.ifs, h.fcnt, h.icnt⟩
+
+theorem AdvS.trans {s s1 s2 : St} {a b : List BLine} {m n : Nat} (h1 : AdvS s s1 a m) (h2 : AdvS s1 s2 b n) :
+    AdvS s s2 (b ++ a) (m + n) :=
+  ⟨by rw [h2.code, h1.code, List.append_assoc], by rw [h2.cnt, h1.cnt, Nat.add_assoc], by rw [h2.funcs, h1.funcs],
+   by rw [h2.fcode, h1.fcode], by rw [h2.fors, h1.fors], by rw [h2.ends, h1.ends], by rw [h2.ifs, h1.ifs],
+   by rw [h2.fcnt, h1.fcnt], by rw [h2.icnt, h1.icnt]⟩
+
+theorem AdvS.toT {s s' : St} {new : List BLine} {n : Nat} (h : AdvS s s' new n) : AdvT s s' new n :=
+  ⟨h.code, h.cnt, h.funcs, h.fcode, h.fors, h.ends, h.ifs, by rw [h.fcnt]; exact Nat.le_refl _, by rw [h.icnt]; exact Nat.le_refl _⟩
+
+theorem AdvS.funcs_nil {s s' : St} {a : List BLine} {n : Nat} (h : AdvS s s' a n) (h0 : s.funcs = []) : s'.funcs = [] := by
+  rw [h.funcs]; exact h0
+
 theorem forStartOp_ok {s s' : St} {u : Unit} (h0 : s.funcs = []) (h : forStartOp s = .ok (u, s')) :
     s'.globalCode = .clabel (forLabel s.forCounter) :: .set (flagName s.forCounter) "" :: s.globalCode ∧
       s'.fors = forLabel s.forCounter :: s.fors ∧ s'.endLabels = endLabel s.forCounter :: s.endLabels ∧
@@ -38,19 +65,19 @@ theorem currentForVar_eq {s : St} {n : Nat} (h : s.forCounter = n + 1) : current
   simp [currentForVar, h, flagName]
 
 theorem forIncrementStartOp_ok {s s' : St} {u : Unit} {n : Nat} (h0 : s.funcs = []) (hn : s.forCounter = n + 1)
-    (h : forIncrementStartOp s = .ok (u, s')) : Adv s s' [.opn ("if defined " ++ flagName n ++ " (")] 0 := by
+    (h : forIncrementStartOp s = .ok (u, s')) : AdvS s s' [.opn ("if defined " ++ flagName n ++ " (")] 0 := by
   simp [forIncrementStartOp, bind, Tr.get, addLine, h0, currentForVar_eq hn] at h
   rw [← h]
   exact ⟨rfl, rfl, h0.symm, rfl, rfl, rfl, rfl, rfl, rfl⟩
 
 theorem forIncrementEndOp_ok {s s' : St} {u : Unit} {n : Nat} (h0 : s.funcs = []) (hn : s.forCounter = n + 1)
-    (h : forIncrementEndOp s = .ok (u, s')) : Adv s s' [.set (flagName n) "1", .close] 0 := by
+    (h : forIncrementEndOp s = .ok (u, s')) : AdvS s s' [.set (flagName n) "1", .close] 0 := by
   simp [forIncrementEndOp, bind, Tr.get, addLine, h0, currentForVar_eq hn] at h
   rw [← h]
   exact ⟨rfl, rfl, h0.symm, rfl, rfl, rfl, rfl, rfl, rfl⟩
 
 theorem forCondition_ok {c : String} {s s' : St} {u : Unit} (h0 : s.funcs = []) (h : addLine (.opn (ifStartLine c)) s = .ok (u, s')) :
-    Adv s s' [.opn (ifStartLine c)] 0 := by
+    AdvS s s' [.opn (ifStartLine c)] 0 := by
   simp [addLine, h0] at h
   rw [← h]
   exact ⟨rfl, rfl, h0.symm, rfl, rfl, rfl, rfl, rfl, rfl⟩
@@ -64,13 +91,13 @@ theorem forEndOp_ok {l e : String} {r r' : List String} {s s' : St} {u : Unit} (
   exact ⟨rfl, by simp [hf], rfl, rfl, ⟨rfl, h0.symm, rfl, rfl, rfl⟩⟩
 
 theorem brkOp_ok {e : String} {r' : List String} {s s' : St} {u : Unit} (h0 : s.funcs = []) (he : s.endLabels = e :: r')
-    (h : brkOp s = .ok (u, s')) : Adv s s' [.cgoto e] 0 := by
+    (h : brkOp s = .ok (u, s')) : AdvS s s' [.cgoto e] 0 := by
   simp [brkOp, bind, Tr.get, he, brkTail, addLine, h0] at h
   rw [← h]
   exact ⟨rfl, rfl, h0.symm, rfl, rfl, he.symm, rfl, rfl, rfl⟩
 
 theorem contOp_ok {l : String} {r : List String} {s s' : St} {u : Unit} (h0 : s.funcs = []) (hf : s.fors = l :: r)
-    (h : contOp s = .ok (u, s')) : Adv s s' [.cgoto l] 0 := by
+    (h : contOp s = .ok (u, s')) : AdvS s s' [.cgoto l] 0 := by
   simp [contOp, currentFor, hf, bind, addLine, h0] at h
   rw [← h]
   exact ⟨rfl, rfl, h0.symm, rfl, hf.symm, rfl, rfl, rfl, rfl⟩
@@ -241,13 +268,13 @@ theorem src32_for {init : Option Stmt} {cond : Expr} {incr : Option Stmt} {body 
 /-- the increment block of loop `n`, emitted from a state whose loop counter is `n + 1` -/
 theorem incrL_sem (ctx : LCtx) (incr : Option Stmt) (hf : Src.fragOpt incr = true) (hs : simpleIncr incr = true) :
     ∀ s s' n, s.funcs = [] → s.forCounter = n + 1 → evalIncr conv incr s = .ok ((), s') →
-      ∃ P nn, Adv s s' (flats ctx P).reverse nn ∧ IncrSimT incr P n := by
+      ∃ P nn, AdvS s s' (flats ctx P).reverse nn ∧ wfBs P = true ∧ IncrSimT incr P n := by
   match incr, hs with
   | none, _ =>
     intro s s' n h0 hn h
     unfold evalIncr at h
     obtain ⟨_, es⟩ := pureB_ok h
-    refine ⟨[], 0, by rw [es]; simpa [flats] using Adv.refl s, ?_, ?_⟩
+    refine ⟨[], 0, by rw [es]; simpa [flats] using (Adv.refl s).toS, rfl, ?_, ?_⟩
     · intro fuel cb c2 hs ρ ha hfl
       simp only [srcIncr32, Option.some.injEq, Prod.mk.injEq, true_and] at hs
       subst hs
@@ -287,8 +314,9 @@ theorem incrL_sem (ctx : LCtx) (incr : Option Stmt) (hf : Src.fragOpt incr = tru
     have hn2 : s2.forCounter = n + 1 := by rw [adi.fcnt, ad1.fcnt]; exact hn
     have h3' : forIncrementEndOp s2 = .ok ((), s') := h3
     have ad3 := forIncrementEndOp_ok h02 hn2 h3'
-    refine ⟨[BCmd.guarded n (newi.reverse.map BCmd.simple), BCmd.simple (.set (flagName n) "1")], 0 + ni + 0, ?_, ?_, ?_⟩
-    · have := (ad1.trans adi).trans ad3
+    refine ⟨[BCmd.guarded n (newi.reverse.map BCmd.simple), BCmd.simple (.set (flagName n) "1")], 0 + ni + 0, ?_,
+      by simp [wfBs, wfB, plainB, wfBs_simples_reverse' newi adi.plain], ?_, ?_⟩
+    · have := (ad1.trans adi.toS).trans ad3
       simpa [flats, flat, flats_simples, flats_simples_reverse, List.reverse_append] using this
     · intro fuel cb c2 hs ρ ha hfl
       have hs' : Src32.execStmt fuel i cb = some (.normal, c2) := hs
@@ -361,7 +389,7 @@ theorem stmtL_sem (ctx : LCtx) (st : Stmt) (hf : Src.fragStmt st = true) (hn : s
       obtain ⟨lh, le⟩ := p
       obtain ⟨r, r', hfo, hen⟩ := hk
       have ad := brkOp_ok h0 hen h'
-      refine ⟨[BCmd.brk], 0, by simpa [flats, flat] using ad.toT, ?_⟩
+      refine ⟨[BCmd.brk], 0, by simpa [flats, flat] using ad.toT, rfl, ?_⟩
       intro fuel c o c' hs ρ ha
       cases fuel with
       | zero => simp [Src32.execStmt] at hs
@@ -381,7 +409,7 @@ theorem stmtL_sem (ctx : LCtx) (st : Stmt) (hf : Src.fragStmt st = true) (hn : s
       obtain ⟨lh, le⟩ := p
       obtain ⟨r, r', hfo, hen⟩ := hk
       have ad := contOp_ok h0 hfo h'
-      refine ⟨[BCmd.cont], 0, by simpa [flats, flat] using ad.toT, ?_⟩
+      refine ⟨[BCmd.cont], 0, by simpa [flats, flat] using ad.toT, rfl, ?_⟩
       intro fuel c o c' hs ρ ha
       cases fuel with
       | zero => simp [Src32.execStmt] at hs
@@ -412,17 +440,17 @@ theorem stmtL_sem (ctx : LCtx) (st : Stmt) (hf : Src.fragStmt st = true) (hn : s
     have h03 : s3.funcs = [] := by rw [r3.funcs]; exact h02
     have hk3 : CtxOK ctx s3 := CtxOK.of_eq (by rw [r3.fors, ad2.fors, ad1.fors]) (by rw [r3.ends, ad2.ends, ad1.ends]) hk
     have hb := blockL_sem ctx body hfb hnb s3 s4 h03 hk3 h4
-    obtain ⟨bc, nb, adb, simb⟩ := hb
+    obtain ⟨bc, nb, adb, wfb, simb⟩ := hb
     have h04 : s4.funcs = [] := adb.funcs_nil h03
     have hk4 := hk3.advT adb
     have i4 : s4.ifs = ifLabel s2.ifCounter :: s2.ifs := by rw [adb.ifs, i3]
     have he := elifsL_sem ctx elifs hfe hne ecs s4 s5 _ _ h04 hk4 i4 hlen h5
-    obtain ⟨tree, nt, adt, simt⟩ := he
+    obtain ⟨tree, nt, adt, wft, simt⟩ := he
     have h05 : s5.funcs = [] := adt.funcs_nil h04
     have hk5 := hk4.advT adt
     have i5 : s5.ifs = ifLabel s2.ifCounter :: s2.ifs := by rw [adt.ifs, i4]
     have hl := elseL_sem ctx els hfl hnl s5 s6 _ _ h05 hk5 i5 h6
-    obtain ⟨et, nl, adl, siml⟩ := hl
+    obtain ⟨et, nl, adl, wfl, siml⟩ := hl
     have h06 : s6.funcs = [] := adl.funcs_nil h05
     have i6 : s6.ifs = ifLabel s2.ifCounter :: s2.ifs := by rw [adl.ifs, i5]
     have h7' : ifEndOp s6 = .ok ((), s') := h7
@@ -431,7 +459,7 @@ theorem stmtL_sem (ctx : LCtx) (st : Stmt) (hf : Src.fragStmt st = true) (hn : s
     have f2 : s2.forCounter = s.forCounter := by rw [ad2.fcnt, f1]
     have f3 : s3.forCounter = s.forCounter := by rw [r3.fcnt, f2]
     refine ⟨(newc.reverse ++ newe.reverse).map BCmd.simple ++ [BCmd.chain (ifLabel s2.ifCounter) tc bc tree et],
-      nc + ne + nb + nt + nl, ?_, ?_⟩
+      nc + ne + nb + nt + nl, ?_, ?_, ?_⟩
     · refine ⟨?_, ?_, ?_, ?_, ?_, ?_, ?_, ?_, ?_⟩
       · rw [c7, adl.code, adt.code, adb.code, c3, ad2.code, ad1.code]
         simp [flats_append, flats_simples, flats_simples_reverse, flats, flat, List.reverse_append]
@@ -448,6 +476,11 @@ theorem stmtL_sem (ctx : LCtx) (st : Stmt) (hf : Src.fragStmt st = true) (hn : s
         have := adl.icnt; have := adt.icnt; have := adb.icnt
         have e1 := ad1.icnt; have e2 := ad2.icnt
         omega
+    · rw [wfBs_append, ← List.reverse_append, wfBs_simples_reverse _ (fun l hl => by
+        rcases List.mem_append.mp hl with h | h
+        · exact ad2.plain l h
+        · exact ad1.plain l h)]
+      simp [wfBs, wfB, wfb, wft, wfl]
     · intro fuel c0 o c' hs ρ ha
       cases fuel with
       | zero => simp [Src32.execStmt] at hs
@@ -492,13 +525,13 @@ theorem stmtL_sem (ctx : LCtx) (st : Stmt) (hf : Src.fragStmt st = true) (hn : s
     obtain ⟨_, s5, h5, h⟩ := bindB_ok h
     obtain ⟨_, s6, h6, h7⟩ := bindB_ok h
     have hi := optL_sem ctx init hfi hni s s1 h0 hk h1
-    obtain ⟨ci, ni, adi, simi⟩ := hi
+    obtain ⟨ci, ni, adi, wfi, simi⟩ := hi
     have h01 : s1.funcs = [] := adi.funcs_nil h0
     have h2' : forStartOp s1 = .ok ((), s2) := h2
     obtain ⟨c2, fo2, en2, fc2, r2⟩ := forStartOp_ok h01 h2'
     have h02 : s2.funcs = [] := by rw [r2.funcs]; exact h01
     have hinc := incrL_sem (some (forLabel s1.forCounter, endLabel s1.forCounter)) incr hfn hnn s2 s3 s1.forCounter h02 fc2 h3
-    obtain ⟨P, np, adp, simP⟩ := hinc
+    obtain ⟨P, np, adp, wfP, simP⟩ := hinc
     have h03 : s3.funcs = [] := adp.funcs_nil h02
     obtain ⟨tc, newc, nc, er, ad4⟩ := exprB_shape cond true s3 c s4 hfc h03 h4
     subst er
@@ -510,13 +543,14 @@ theorem stmtL_sem (ctx : LCtx) (st : Stmt) (hf : Src.fragStmt st = true) (hn : s
     have en5 : s5.endLabels = endLabel s1.forCounter :: s1.endLabels := by rw [ad5.ends, ad4.ends, adp.ends, en2]
     have hk5 : CtxOK (some (forLabel s1.forCounter, endLabel s1.forCounter)) s5 := ⟨_, _, fo5, en5⟩
     have hb := blockL_sem (some (forLabel s1.forCounter, endLabel s1.forCounter)) body hfb hnb s5 s6 h05 hk5 h6
-    obtain ⟨bc, nb, adb, simb⟩ := hb
+    obtain ⟨bc, nb, adb, wfb, simb⟩ := hb
     have h06 : s6.funcs = [] := adb.funcs_nil h05
     have h7' : forEndOp s6 = .ok ((), s') := h7
     obtain ⟨c7, fo7, en7, fc7, r7⟩ := forEndOp_ok h06 (by rw [adb.fors, fo5]) (by rw [adb.ends, en5]) h7'
     have f5 : s5.forCounter = s1.forCounter + 1 := by rw [ad5.fcnt, ad4.fcnt, adp.fcnt, fc2]
     refine ⟨ci ++ [BCmd.simple (.set (flagName s1.forCounter) ""),
-        BCmd.loop s1.forCounter (P ++ newc.reverse.map BCmd.simple) tc bc], ni + np + nc + nb, ?_, ?_⟩
+        BCmd.loop s1.forCounter (P ++ newc.reverse.map BCmd.simple) tc bc], ni + np + nc + nb, ?_,
+        by simp [wfBs_append, wfBs, wfB, plainB, wfi, wfP, wfb, wfBs_simples_reverse' newc ad4.plain], ?_⟩
     · refine ⟨?_, ?_, ?_, ?_, ?_, ?_, ?_, ?_, ?_⟩
       · rw [c7, adb.code, ad5.code, ad4.code, adp.code, c2, adi.code]
         simp [flats_append, flats_simples, flats_simples_reverse, flats, flat, List.reverse_append]
@@ -581,7 +615,7 @@ theorem optL_sem (ctx : LCtx) (init : Option Stmt) (hf : Src.fragOpt init = true
     intro s s' h0 hk h
     unfold evalInit at h
     obtain ⟨_, es⟩ := pureB_ok h
-    refine ⟨[], 0, by rw [es]; simpa [flats] using AdvT.refl s, ?_⟩
+    refine ⟨[], 0, by rw [es]; simpa [flats] using AdvT.refl s, rfl, ?_⟩
     intro fuel c o c' hs ρ ha
     simp only [srcIncr32, Option.some.injEq, Prod.mk.injEq] at hs
     obtain ⟨rfl, rfl⟩ := hs
@@ -595,7 +629,7 @@ theorem blockL_sem (ctx : LCtx) (body : List Stmt) (hf : Src.fragStmts body = tr
     unfold evalBlock at h
     have h' : addLine (.raw "rem No operation") s = .ok ((), s') := h
     have ad := nop_ok h0 h'
-    refine ⟨[BCmd.simple (.raw "rem No operation")], 0, by simpa [flats, flat] using ad.toT, ?_⟩
+    refine ⟨[BCmd.simple (.raw "rem No operation")], 0, by simpa [flats, flat] using ad.toT, by simp [wfBs, wfB, plainB], ?_⟩
     intro fuel c o c' hs ρ ha
     cases fuel with
     | zero => simp [Src32.execStmts] at hs
@@ -636,13 +670,13 @@ theorem stmtsL_sem (ctx : LCtx) (body : List Stmt) (hf : Src.fragStmts body = tr
 
 theorem elseL_sem (ctx : LCtx) (els : List Stmt) (hf : Src.fragStmts els = true) (hn : simpleLoopsStmts els = true) :
     ∀ s s' l r, s.funcs = [] → CtxOK ctx s → s.ifs = l :: r → evalElse conv els s = .ok ((), s') →
-      ∃ t n, AdvT s s' (flatElse ctx l t).reverse n ∧ ElseSimT els t s.forCounter := by
+      ∃ t n, AdvT s s' (flatElse ctx l t).reverse n ∧ wfElse t = true ∧ ElseSimT els t s.forCounter := by
   match els with
   | [] =>
     intro s s' l r h0 hk hi h
     unfold evalElse at h
     obtain ⟨_, es⟩ := pureB_ok h
-    refine ⟨none, 0, by rw [es]; simpa [flatElse] using AdvT.refl s, ?_⟩
+    refine ⟨none, 0, by rw [es]; simpa [flatElse] using AdvT.refl s, rfl, ?_⟩
     intro fuel c o c' hs ρ ha
     cases fuel with
     | zero => simp [Src32.execStmts] at hs
@@ -668,8 +702,8 @@ theorem elseL_sem (ctx : LCtx) (els : List Stmt) (hf : Src.fragStmts els = true)
     obtain ⟨_, e4⟩ := pureB_ok (a := ()) h4
     have hseq : StmtSemT ctx (fun f c => Src32.execStmts f (st :: rest) c) s1 s3 :=
       stmtSemT_seq hs1 hs2 (fun _ _ _ _ h => execStmts32_cons_cases h)
-    obtain ⟨cs, n, ad, sim⟩ := hseq
-    refine ⟨some cs, n, ?_, ?_⟩
+    obtain ⟨cs, n, ad, wfc, sim⟩ := hseq
+    refine ⟨some cs, n, ?_, by simpa [wfElse] using wfc, ?_⟩
     · rw [e4]
       refine ⟨?_, ?_, ?_, ?_, ?_, ?_, ?_, ?_, ?_⟩
       · rw [ad.code, c1]; simp [flatElse, List.reverse_append]
@@ -690,7 +724,7 @@ theorem elseL_sem (ctx : LCtx) (els : List Stmt) (hf : Src.fragStmts els = true)
 
 theorem elifsL_sem (ctx : LCtx) (elifs : List (Expr × List Stmt)) (hf : Src.fragElifs elifs = true) (hn : simpleLoopsElifs elifs = true) :
     ∀ ecs s s' l r, s.funcs = [] → CtxOK ctx s → s.ifs = l :: r → ecs.length = elifs.length → evalElifs conv elifs ecs s = .ok ((), s') →
-      ∃ tree n, AdvT s s' (flatElifs ctx l tree).reverse n ∧
+      ∃ tree n, AdvT s s' (flatElifs ctx l tree).reverse n ∧ wfElifs tree = true ∧
         ∀ els elseT k0, s'.forCounter ≤ k0 → ElseSimT els elseT k0 →
           ∀ fuel bs c o c', Src32.execElifs fuel elifs bs els c = some (o, c') → bs.length = elifs.length →
             ∀ ρ, Agree c.env ρ → GuardValsB ecs bs ρ →
@@ -700,7 +734,7 @@ theorem elifsL_sem (ctx : LCtx) (elifs : List (Expr × List Stmt)) (hf : Src.fra
     intro ecs s s' l r h0 hk hi hlen h
     unfold evalElifs at h
     obtain ⟨_, es⟩ := pureB_ok h
-    refine ⟨[], 0, by rw [es]; simpa [flatElifs] using AdvT.refl s, ?_⟩
+    refine ⟨[], 0, by rw [es]; simpa [flatElifs] using AdvT.refl s, rfl, ?_⟩
     intro els elseT k0 hk0 hsim fuel bs c o c' hs hbl ρ ha _
     obtain ⟨f, hs'⟩ := src32_elifs_nil hs
     obtain ⟨ρ', ex, post⟩ := hsim f c o c' hs' ρ ha
@@ -721,13 +755,13 @@ theorem elifsL_sem (ctx : LCtx) (elifs : List (Expr × List Stmt)) (hf : Src.fra
       have hk1 : CtxOK ctx s1 := CtxOK.of_eq r1.fors r1.ends hk
       have hb := blockL_sem ctx body hf.1.2 hn.1 s1 s2 h01 hk1 h2
       obtain ⟨_, e3⟩ := pureB_ok (a := ()) h3
-      obtain ⟨bc, nb, adb, simb⟩ := hb
+      obtain ⟨bc, nb, adb, wfb, simb⟩ := hb
       have h03 : s3.funcs = [] := by rw [e3]; exact adb.funcs_nil h01
       have hk3 : CtxOK ctx s3 := by rw [e3]; exact hk1.advT adb
       have i3 : s3.ifs = l :: r := by rw [e3, adb.ifs, i1, hi]
       have hr := elifsL_sem ctx rest hf.2 hn.2 cs s3 s' l r h03 hk3 i3 (by simpa using hlen) h4
-      obtain ⟨tree, nt, adt, simt⟩ := hr
-      refine ⟨(t, bc) :: tree, nb + nt, ?_, ?_⟩
+      obtain ⟨tree, nt, adt, wft, simt⟩ := hr
+      refine ⟨(t, bc) :: tree, nb + nt, ?_, by simp [wfElifs, wfb, wft], ?_⟩
       · refine ⟨?_, ?_, ?_, ?_, ?_, ?_, ?_, ?_, ?_⟩
         · rw [adt.code, e3, adb.code, c1]; simp [flatElifs, List.reverse_append]
         · rw [adt.cnt, e3, adb.cnt, r1.cnt]; omega
